@@ -84,8 +84,8 @@ class BaseGeo(BaseTransform):
     @staticmethod
     def _process_style_kwargs(style=None, **kwargs):
         if kwargs:
-            if style is None:
-                style = {}
+            # merge into a copy, the style dictionary of the caller stays as it is
+            style = {} if style is None else dict(style)
             style_kwargs = {}
             for k, v in kwargs.items():
                 if k.startswith("style_"):
